@@ -43,7 +43,10 @@ def python_records(ctx, n_enc, n_dec):
         m = objs.get(d["cls"])
         if m is None:
             m = objs[d["cls"]] = D.mk_tx(d) if d["cls"] == "tx" else D.mk_rx(d)
-            m.gen_msg(False)
+            try:
+                m.gen_msg(False)
+            except Exception:
+                pass            # judged below: the record of this very message carries the refusal
         if rng.random() < 0.5 and m.burst is not None and d["burst"]["has"] and len(m.burst) == len(d["burst"]["bits"]):
             pass                                    # same length: assign() changes the bits in place
         recs.append(D.enc_record_reused("u%d" % j, m, d, rng.random() < 0.5))
@@ -84,7 +87,20 @@ def trxcon_records(ctx, n_ind, n_req):
             ctx.violation("C04/C04.enc.refused/rx-v0", "gen_msg() refused a valid version-0 Rx message (%s: %s)" % (type(e).__name__, e),
                           dict(message={k: (v if k != "burst" else len(v["bits"])) for k, v in d.items()}))
             continue
+        # an active uplink channel: trxcon answers the RTS.ind of this very frame with a BURST.req
+        # from inside the receive callback (both directions of trx_if.c in one call)
+        ul = None
+        if rng.random() < 0.4:
+            ul = dict(pwr=D.pick_edge(rng, 0, 255), bits=D.rand_bits(rng, rng.choice([148, 148, 444])))
+            t.uplink(ul["pwr"], ul["bits"])
         r = t.data(bytes(raw))
+        if ul is not None and r is not None:
+            t.uplink(0, [])
+            req = [e for e in r["ev"] if e["k"] == "ul_req"]
+            if req:
+                sent = r["dsent"][0] if r["dsent"] else []
+                recs.append(dict(id="cu%d" % k, e="creq", cls="tx", raw=sent, dec=D.parse_any("tx", bytes(sent)),
+                                 req=dict(fn=req[0]["fn"], tn=req[0]["tn"], pwr=ul["pwr"], bits=ul["bits"])))
         if r is None:
             ctx.violation("C04/memory/trxcon-data-rx", "trx_if.c died on a valid version-0 datagram (rc=%s)" % (t.crashed[0],),
                           dict(raw=list(raw), stderr=t.crashed[1]))
